@@ -209,6 +209,30 @@ type Case struct {
 	desc any
 	// Cancelled is closed when the watchdog gave up on the case.
 	Cancelled chan struct{}
+	// Second: this is the confirmation re-run of the case on an idle process.
+	Second bool
+	fn     func(*Case)
+}
+
+// TimeViol reports a violation whose evidence is a generous wall-clock bound
+// being exceeded. The first time, the case is only queued for a confirmation
+// re-run at the end of the shard, when nothing else runs in this process;
+// only if the bound is exceeded again is it recorded as a violation.
+func (k *Case) TimeViol(key, what string, witness any) {
+	if k.Second {
+		k.Viol(key, what+" (confirmed by a second run on an idle process)", witness)
+		return
+	}
+	k.Ctx.Count("time_bound_exceeded_first_run", 1)
+	k.Ctx.mu.Lock()
+	for _, h := range k.Ctx.hung {
+		if h.list == k.List && h.idx == k.Idx {
+			k.Ctx.mu.Unlock()
+			return
+		}
+	}
+	k.Ctx.hung = append(k.Ctx.hung, hungCase{k.List, k.Idx, k.fn})
+	k.Ctx.mu.Unlock()
 }
 
 func (k *Case) Viol(key, what string, witness any) {
@@ -275,7 +299,7 @@ func (c *Ctx) caseTimeout() time.Duration {
 
 func (c *Ctx) runCase(list string, idx int, fn func(*Case), second bool) {
 	id := fmt.Sprintf("%s/%s/%d", c.Prop.ID, list, idx)
-	k := &Case{Ctx: c, List: list, Idx: idx, ID: id, Cancelled: make(chan struct{}),
+	k := &Case{Ctx: c, List: list, Idx: idx, ID: id, Cancelled: make(chan struct{}), Second: second, fn: fn,
 		R: NewRand(Mix(HashString(c.Prop.ID), HashString(list), c.Seed, uint64(idx)))}
 	if c.log != nil {
 		fmt.Fprintf(c.log, "BEGIN %s\n", id)
